@@ -402,13 +402,16 @@ def decide(pid, pc, tier, seed, work, t0, finder_driver):
         print('NOTE: obligation %s failed in unit %s (attributed to %s, not to %s)' % (f['label'], f['unit'], ','.join(f['props']), pid))
     # thorough tier: run the finder even when all obligations were discharged
     sampled = None
-    if tier == 'thorough' and rc == 0:
-        sampled = finder_driver.find(pid, seed, 120, REPO, None)
+    fbudget = 120 if tier == 'thorough' else CONF.get('quick_finder_s', 6)
+    if rc == 0 and pid in finder_driver.SUPPORTED and fbudget > 0:
+        # every obligation was discharged: additionally replay sampled inputs of the property's domain on the
+        # real code (sampled, never counted as discharged); a hit means a hole in a contract or in the trusted base
+        sampled = finder_driver.find(pid, seed, fbudget, REPO, None)
         if sampled and sampled.get('found') and not finder_driver.is_known_input(pid, sampled, load_known()):
             rp = os.path.join(VERIF, 'replay', pid, 'finder.json')
             json.dump(dict(property=pid, obligation='(none failed: hole in a contract or in the trusted base)', counterexample=sampled,
                            replay_cmd='./check %s --replay %s' % (pid, rp), tree_sha=sha), open(rp, 'w'), indent=1)
-            print('VIOLATION property=%s replay=%s obligation=finder-only' % (pid, rp))
+            print('VIOLATION property=%s replay=%s obligation=none-failed-but-sampled-replay-on-real-code-found-a-counterexample' % (pid, rp))
             rc = 1
     ev = evidence(pid, pc, tier, seed, t0, mine, discharged, functions, results, smt_ms, verified, failures, undecided, known_hit, new_viol, funcs_time, sha)
     if extra_info is not None:
